@@ -664,6 +664,11 @@ func EncodeFileBlock(typ string, payload []byte, useZlib bool, level int, indexL
 		case "rawsize-abs":
 			// a declared uncompressed size unrelated to the data (raw_size is an int32 field)
 			rs = int64(int32(dmg.Arg))
+			if rs == int64(len(payload)) {
+				// the "unrelated" size happens to be the true one (0 for a header block without
+				// any field): that would be no damage at all
+				rs++
+			}
 		}
 		blob.varint(2, uint64(rs))
 		blob.bytes(3, z)
